@@ -840,7 +840,16 @@ type giant struct {
 func giants() []giant {
 	all := allGiants()
 	if vf.Thorough() {
-		return all
+		// a 512 MiB stack costs ~35 s of first-touch page faults here: of the three 10 MiB nesting shapes only the closed one is
+		// kept (the truncated shapes recurse identically and are run at 64 KiB and 1 MiB)
+		var gs []giant
+		for _, g := range all {
+			if g.Limit == "wasm10M" && (strings.HasPrefix(g.Name, "nest1-truncated/") || strings.HasPrefix(g.Name, "nestMax-truncated/")) {
+				continue
+			}
+			gs = append(gs, g)
+		}
+		return gs
 	}
 	// quick tier: the 10 MiB inputs cost ~10 s each (fresh memory is slow in this sandbox); keep the deepest nesting and the forged length
 	var gs []giant
@@ -1232,7 +1241,16 @@ func classifyCrash(stderr string) string {
 func partB(r *vf.Run, scratch string) {
 	seed := vf.Seed()
 	total := uint64(vf.N(100000, 10000000))
-	chunk := uint64(vf.N(10000, 100000))
+	workers := runtime.NumCPU() - 2
+	if workers < 2 {
+		workers = 2
+	}
+	if workers > 14 {
+		workers = 14
+	}
+	// one long-lived child per worker and contiguous index range (a fresh process pays for every page it touches
+	// first; a crash restarts the range after the fatal case)
+	chunk := (total + uint64(workers) - 1) / uint64(workers)
 	var jobs []job
 	gs := giants()
 	for i := range gs { // giants first: they are the long poles
@@ -1244,13 +1262,6 @@ func partB(r *vf.Run, scratch string) {
 			hi = total
 		}
 		jobs = append(jobs, job{lo: lo, hi: hi, giant: -1})
-	}
-	workers := runtime.NumCPU() - 2
-	if workers < 2 {
-		workers = 2
-	}
-	if workers > 14 {
-		workers = 14
 	}
 	var mu sync.Mutex
 	childDistinct := 0
@@ -1278,7 +1289,7 @@ func partB(r *vf.Run, scratch string) {
 	// 512 MiB stack run one after the other so that the second reuses the pages the first one gave back
 	hugeSem := make(chan struct{}, 1)
 	giantSem := make(chan struct{}, 6)
-	vf.Parallel(len(jobs), workers, func(ji int) {
+	vf.Parallel(len(jobs), workers+6, func(ji int) {
 		j := jobs[ji]
 		if j.giant >= 0 {
 			if l := gs[j.giant].Limit; (l == "wasm10M" || l == "beyond32M") && strings.HasPrefix(gs[j.giant].Name, "nest") {
@@ -1400,8 +1411,11 @@ func main() {
 	scratch := vf.Scratch("c25")
 	defer os.RemoveAll(scratch)
 
+	t0 := time.Now()
 	partA(r, rng.Sub(1))
+	t1 := time.Now()
 	partB(r, scratch)
+	r.Extra("phase_seconds", map[string]float64{"roundtrip": t1.Sub(t0).Seconds(), "hostile": time.Since(t1).Seconds()})
 	os.RemoveAll(scratch)
 
 	for _, k := range []string{"bytes", "bytes_empty", "string", "string_empty", "string_non_utf8", "address", "bool", "bigint", "int_negative", "int_at_i128_limit", "h256", "int", "int64", "int32", "uint32", "list", "list_empty"} {
